@@ -9,6 +9,7 @@ import (
 
 // Ctx is what a rule sees.
 type Ctx struct {
+	walkerDone    map[*FuncUnit]bool
 	sites         map[*FuncUnit][]callSite
 	pedigreeDepth int
 	sigDepth      int
@@ -110,6 +111,9 @@ func isCollationKind(tk *TreeKind) bool { return strings.Contains(strings.ToLowe
 func isCompoundKind(tk *TreeKind) bool  { return strings.Contains(strings.ToLower(tk.Name), "compound") }
 
 // entryPoints returns the API methods behind each property.
+// treeAPI: the operations the properties name (the Tree interface at the pinned commit).
+var treeAPI = []string{"Insert", "Search", "Delete", "Minimum", "Maximum", "Size", "All", "Backward", "Prefix", "Range", "TopK", "BottomK"}
+
 func (c *Ctx) entryPoints(prop string) []*FuncUnit {
 	var out []*FuncUnit
 	pick := func(filter func(*TreeKind) bool, names ...string) {
@@ -143,9 +147,9 @@ func (c *Ctx) entryPoints(prop string) []*FuncUnit {
 	case "C06":
 		pick(nil, "Insert", "Delete", "Size")
 	case "C08":
-		pick(isCollationKind)
+		pick(isCollationKind, treeAPI...)
 	case "C09":
-		pick(isCompoundKind)
+		pick(isCompoundKind, treeAPI...)
 	case "C14":
 		pick(nil, "All", "Backward", "Prefix", "Range", "TopK", "BottomK")
 	case "C15", "C16":
